@@ -14,7 +14,8 @@ VERIF = os.path.dirname(os.path.dirname(os.path.abspath(__file__)))
 USES = {
     "StateIsPrivate": ("C01", "C10", "C19"),
     "InputIsPrivate": ("C08", "C10"),
-    "ProgramIsPrivate": ("C04", "C10", "C11", "C07"),
+    "ProgramIsPrivate": ("C04", "C10", "C11", "C07", "C01", "C05"),   # C01/C05: the depth counter has no writer outside the crate
+    "RngIsPrivate": ("C18",),
     "VariablesArePrivate": ("C10", "C16"),
     "LineStoreIsPrivate": ("C04", "C11"),
     "ProgramTypeIsPrivate": ("C04", "C11"),
